@@ -39,6 +39,16 @@ def run(ctx):
     tf = {f["name"]: f for f in tag["fields"]}
     itf = {f["name"]: f for f in it["fields"]}
     sf = {f["name"]: f for f in sec["fields"]}
+    # ---- how the two layouts are dispatched: a private trait object (`&dyn ElfSectionInner`, the reference form) or a private
+    # enum of two references; the obligations are the same (which bytes each decoding step reads, per layout), stated on whichever
+    # form is there
+    en = F.adts.get("multiboot2::elf_sections::ElfSectionInner<'_>") or F.adts.get("multiboot2::elf_sections::ElfSectionInner")
+    enum_rep = None
+    if en and en.get("kind") == "enum" and len(en.get("variants", [])) == 2:
+        vs = en["variants"]
+        fts = [v.get("fields", []) for v in vs]
+        if all(len(x) == 1 for x in fts) and {fts[0][0], fts[1][0]} == {"&" + I32, "&" + I64}:
+            enum_rep = {"adt": en, "by_layout": {I32: [v for v in vs if v["fields"][0] == "&" + I32][0], I64: [v for v in vs if v["fields"][0] == "&" + I64][0]}}
     # ---- E4 layouts
     for (a, spec, nm) in ((i32, S.ELF32_SHDR, "ELF32"), (i64, S.ELF64_SHDR, "ELF64")):
         got = [(f["off"], f["size"]) for f in a["fields"]]
@@ -48,6 +58,9 @@ def run(ctx):
                   how="compiler layout %s" % got, why="size %s align %s fields %s" % (a["size"], a["align"], got))
         ty = a["path"]
         for meth, fname in METHODS.items():
+            if enum_rep is not None:
+                enum_method(ctx, F, enum_rep, a, spec, nm, meth, fname)
+                continue
             ins = F.find(impl_self=ty, name=meth, impl_trait="multiboot2::elf_sections::ElfSectionInner")
             if len(ins) != 1:
                 ctx.fail("ANCHOR", "%s::%s" % (nm, meth), "decoding method exists", "", "%d" % len(ins))
@@ -226,6 +239,18 @@ def run(ctx):
             # string_table: the address is computed from (*(ptr as *const Ty)).addr: the field projection (index, type) names it,
             # and nothing else in the returned expression may differ between the two arms
             v = arms[key]
+            if fname == "get" and enum_rep is not None:
+                want_v = enum_rep["by_layout"][ty]
+                if v[0] == "aggr" and v[1][0] == "adt" and v[1][2] == want_v["name"] and len(v[2]) == 1:
+                    x_ = v[2][0]
+                    for _ in range(4):
+                        if x_[0] == "ref" and x_[1][0] == "deref":
+                            x_ = x_[1][1]
+                        else:
+                            break
+                    tys[key] = want_v["fields"][0][1:]       # the variant's field type fixes what the pointer is read as
+                    return x_ == pfield
+                return False
             if fname == "get":
                 src_ty = None
                 for _ in range(6):
@@ -276,13 +301,18 @@ def run(ctx):
         if len(ins) != 1:
             ctx.fail("ANCHOR", "ElfSection::" + a_name, "accessor exists", "", "%d" % len(ins))
             continue
+        if enum_rep is not None:
+            enum_accessor(ctx, F, enum_rep, ins[0], a_name, meth, {I32: (i32, S.ELF32_SHDR), I64: (i64, S.ELF64_SHDR)})
+            continue
         rt, _ = an.of(F, ins[0]).ret()
         n = N(rt) if rt is not None else None
         ok = n is not None and n[0] == "call" and str(n[1]).startswith("virtual ") and str(n[1]).endswith("ElfSectionInner>::" + meth) and \
             len(n[2]) == 1 and n[2][0][0] == "call" and n[2][0][1] == SEC + "::<'_>::get" and n[2][0][2] == (arg(1),)
         ctx.check(ok, "E5", "ElfSection::" + a_name, "%s() = get().%s()" % (a_name, meth), ins[0].get("span", ""), how=G.show(rt)[:160], why=G.show(rt)[:300])
     fl = F.find(impl_self_name="ElfSection", name="flags", impl_trait=None)
-    if len(fl) == 1:
+    if len(fl) == 1 and enum_rep is not None:
+        enum_accessor(ctx, F, enum_rep, fl[0], "flags", "flags", {I32: (i32, S.ELF32_SHDR), I64: (i64, S.ELF64_SHDR)}, wrapper="from_bits_truncate")
+    elif len(fl) == 1:
         rt, _ = an.of(F, fl[0]).ret()
         n = N(rt) if rt is not None else None
         ok = n is not None and n[0] == "call" and "from_bits_truncate" in str(n[1]) and n[2][0][0] == "call" and str(n[2][0][1]).endswith("ElfSectionInner>::flags")
@@ -308,6 +338,89 @@ def run(ctx):
         ["rustc MIR/layout", "mb2rules TERMS/GUARD/CLASSIFY/loop pairing", "hand proof of the cursor lemma (DESIGN.md §4 C19)", "ELF gABI tables in spec.py"],
         "one obligation per premise E1..E5 (per method / per struct where applicable)",
     )
+
+
+def _field_read(v, base_pred):
+    """v (raw term) is a plain or widened read of one field through a reference satisfying base_pred -> (index, declared type)"""
+    x = v
+    for _ in range(4):
+        if x[0] == "zext":
+            x = x[1]
+        elif x[0] == "cast" and x[1] == "IntToInt":
+            x = x[2]
+        else:
+            break
+    if x[0] == "fld" and len(x) > 4 and x[1][0] == "deref" and base_pred(N(x[1][1])):
+        return x[2], x[4]
+    return None
+
+
+def _spec_field(a, spec, fname):
+    o, w = [(o, w) for (f, o, w) in spec["fields"] if f == fname][0]
+    return [f for f in a["fields"] if f["off"] == o and f["size"] == w]
+
+
+def enum_method(ctx, F, enum_rep, a, spec, nm, meth, fname):
+    """E4 for the enum form: the enum's decoding method `meth`, on the variant holding this layout, reads this layout's field"""
+    hs = [h for k, h in list(F.helper_insts.items()) + list(F.insts.items())
+          if h.get("impl_self_name") == "ElfSectionInner" and not h.get("impl_trait") and h.get("name") == meth]
+    if len(hs) != 1:
+        ctx.fail("ANCHOR", "%s::%s" % (nm, meth), "decoding method exists", "", "%d" % len(hs))
+        return
+    var = enum_rep["by_layout"][a["path"]]
+    want = _spec_field(a, spec, fname)
+    ok = False
+    why = ""
+    try:
+        it_, pieces, _ = CL.classify(F, hs[0], domain=((0, 1),))
+        subj = N(it_)
+        ok_in = subj in (("discr", deref(arg(1))), ("discr", arg(1)))
+        for (iv, val, bb) in pieces:
+            if (var["idx"], var["idx"]) in iv or any(lo <= var["idx"] <= hi for (lo, hi) in iv):
+                payload = ("fld", ("dc", subj[1], var["idx"]), 0)
+                r = _field_read(val, lambda b_: b_ == payload)
+                why = G.show(val)[:200]
+                ok = ok_in and r is not None and len(want) == 1 and r[0] == want[0]["i"] and r[1] == want[0]["ty"]
+    except CL.Unrecognised as e:
+        why = "UNRECOGNISED %s" % e
+    o, w = [(o, w) for (f, o, w) in spec["fields"] if f == fname][0]
+    ctx.check(ok, "E4", "%s::%s" % (nm, meth), "%s::%s() returns %s (offset %d, %d bytes), zero-extended" % (nm, meth, fname, o, w), hs[0].get("span", ""),
+              how="variant %s: %s" % (var["name"], why), why=why)
+
+
+def enum_accessor(ctx, F, enum_rep, inst, a_name, meth, layouts, wrapper=None):
+    """E5 for the enum form: the public accessor decides on the variant get() answers and reads that layout's field"""
+    fname = METHODS[meth]
+    ok = True
+    why = []
+    try:
+        it_, pieces, _ = CL.classify(F, inst, domain=((0, 1),))
+        subj = N(it_)
+        getc = ("call", SEC + "::<'_>::get", (arg(1),))
+        ok = subj == ("discr", getc)
+        seen = set()
+        for (iv, val, bb) in pieces:
+            for ty, (a, spec) in layouts.items():
+                var = enum_rep["by_layout"][ty]
+                if not any(lo <= var["idx"] <= hi for (lo, hi) in iv):
+                    continue
+                seen.add(ty)
+                v = val
+                if wrapper is not None:
+                    g_ = G.strip(v)
+                    v = g_[2][0] if g_[0] == "call" and wrapper in str(g_[1]) and len(g_[2]) == 1 else ("opq", "not wrapped")
+                payload = ("fld", ("dc", getc, var["idx"]), 0)
+                r = _field_read(v, lambda b_: b_ == payload)
+                want = _spec_field(a, spec, fname)
+                good = r is not None and len(want) == 1 and r[0] == want[0]["i"] and r[1] == want[0]["ty"]
+                ok = ok and good
+                why.append("%s: %s" % (var["name"], G.show(val)[:120]))
+        ok = ok and len(seen) == 2
+    except CL.Unrecognised as e:
+        ok = False
+        why.append("UNRECOGNISED %s" % e)
+    ctx.check(ok, "E5", "ElfSection::" + a_name, "%s() = %sget().%s(): per layout the %s field of the header get() selected" %
+              (a_name, (wrapper + " of ") if wrapper else "", meth, fname), inst.get("span", ""), how="; ".join(why)[:300], why="; ".join(why)[:400])
 
 
 def arm_pointee_types(body):
